@@ -143,6 +143,21 @@ Definition settled (s : fs) : bool :=
      | _, _ => false
      end.
 
+(* a history of Save attempts, each cut by a crash: attempt number n saves [a_data] under the temp
+   name [a_t], crashes after [a_k] steps with [a_j] pending directory operations on disk
+   (a_k >= 6: the Save completed before the crash) *)
+Record attempt := AT { a_t : N; a_data : bytes; a_k : nat; a_j : nat }.
+
+Fixpoint history (s : fs) (junk : nat -> N -> bytes) (n : nat) (l : list attempt) : fs :=
+  match l with
+  | [] => s
+  | a :: r => history (crash (run s (firstn (a_k a) (save_ops (a_t a) (a_data a)))) (a_j a) (junk n)) junk (S n) r
+  end.
+
+(* every directory entry, visible or durable, points below the next free inode number *)
+Definition bounded (s : fs) : Prop :=
+  forall n i, dir_get (f_dir s) n = Some i \/ dir_get (f_ddir s) n = Some i -> i < f_next s.
+
 (* ---- the codec, JSON and CRC abstract ------------------------------------------------------ *)
 
 Section Codec.
